@@ -570,8 +570,25 @@ def run(tier, replay=None):
                         queue_reads_cases(pending, res, f"{prog} {sel}")
                 flush_model(chk, drv, pending)
 
-            # ---- pools vs physically merged BAMs
+            # ---- all samples in ONE alignment file (several SM values per BAM): same columns as from separate files
             S = ds.samples
+            multi = synth.merge_bams(os.path.join(work, f"ds{d}.multi.bam"), ds.contigs, ds, [bam[s] for s in S], sample_name=None)
+            for prog in ("call", "call-exact", "assemble"):
+                tag = {**tag0, "prog": prog, "selection": "all samples in one multi-sample BAM"}
+                a = argv_for(prog, S, hv)
+                i = a.index("--bam")
+                a[i + 1:i + 1 + len(S)] = [multi]
+                res = run_prog(obs, a, f"{prog} multi-sample bam")
+                chk.count(f"runs:{prog}:multi-sample-bam")
+                chk.case({"kind": "multi-sample-bam", **tag}, True)
+                if prog.startswith("assemble"):
+                    compare_assemble(chk, res, base[prog], list(S), ds.samples, tag, permutation=False)
+                else:
+                    compare_call_columns(chk, prog, base[prog], res, list(S), tag)
+                queue_reads_cases(pending, res, f"{prog} multi-sample bam")
+            flush_model(chk, drv, pending)
+
+            # ---- pools vs physically merged BAMs
             pool_defs = [("P_ab", [S[0], S[1]]), ("P_all", list(S)), ("P_one", [S[-1]]), ("P_ba", [S[1], S[0]])]
             if len(S) >= 4:
                 pool_defs.append(("P_cd", [S[2], S[3]]))
